@@ -48,6 +48,13 @@ EnvMove ==
   \/ \E f \in Faulty, m \in Pick(2, Honest), s \in Sessions, id \in Ids, pl \in Pick(4, Payloads) :
        /\ FSig(f, m, s, id, pl) /\ UNCHANGED mode
        /\ hist' = Append(hist, [ev |-> "FSig", f |-> f, m |-> m, sess |-> s, id |-> id, pl |-> pl])
+  \* two requests for one (peer, id) slot inside the handler at once; in the required design the first one to reach
+  \* dedupHash wins, which is the one issued first (the executor staggers them): net effect = FSig of the first
+  \/ \E f \in Faulty, m \in Pick(2, Honest), s \in Sessions, id \in Allowed, pl \in Pick(3, Payloads), pl2 \in Pick(3, Payloads) :
+       /\ pl # pl2 /\ (SigOutcome(m, s, f, id, pl) = "ok" \/ SigOutcome(m, s, f, id, pl2) # "ok")
+       /\ FSig(f, m, s, id, pl) /\ UNCHANGED mode
+       /\ hist' = Append(hist, [ev |-> "FSigC", f |-> f, m |-> m, sess |-> s,
+                                reqs |-> <<[id |-> id, pl |-> pl], [id |-> id, pl |-> pl2]>>])
   \/ \E f \in Faulty, r \in Pick(1, Honest), s \in Sessions, id \in Ids, pl \in {g.pl : g \in known} :
        /\ \E sigs \in Pick(3, AttackLists(s, id, pl)) \cup {BestList(s, id, pl)} :
             /\ FSend(f, r, s, id, pl, sigs) /\ UNCHANGED mode
